@@ -310,12 +310,69 @@ def run_shard(campaign, shard, nshards, seed, tier):
             if d is not None:
                 part.violation('correspondence', campaign, 'corr:duplex', 'model differs at op %d' % d, {'insts': pr.case['insts'], 'ops': pr.case['ops'][:d + 1]},
                                {'impl_line': pr.lines[d], 'model_line': ml_[d], 'theorem_or_correspondence': THEOREMS})
+    elif campaign == 'readdress':
+        # set_address() on a live (idle) layer, then sends: the frames are the reference segmentation under the NEW address
+        # (prefix byte, identifiers, capacities) - compared with the Spec and with a model instance configured with the new address
+        from core import ImplInst
+        n = (160 if quick else 6000) // nshards + 1
+        for i in range(n):
+            tx_dl = rng.choice([8, 8, 12, 64])
+            m1, m2 = rng.choice(MODES), rng.choice(MODES)
+            params = {'tx_data_length': tx_dl, 'blocksize': 0}
+            if tx_dl > 8:
+                params['can_fd'] = True
+            old = {'txa': rand_address(rng, m1), 'rxa': None, 'params': params}
+            inst = {'txa': rand_address(rng, m2), 'rxa': None, 'params': params}
+            setup_spec(m, inst)
+            rid, ext, pfx = reach(inst)
+            plen = 1 if m2.startswith(('Extended', 'Mixed')) else 0
+            sf_cap = (7 - plen) if tx_dl == 8 else (tx_dl - 2 - plen)
+            pr = PeerRun([inst], links={0: 0})
+            pr.impl[0] = ImplInst(old)                         # built with the old address ...
+            if rng.random() < 0.5:                             # ... possibly used with it ...
+                pr.impl[0].layer.send(bytes([1, 2, 3])); pr.impl[0].layer.process(); pr.impl[0].events = []
+                pr.impl[0].nreq = 0
+                pr.impl[0].layer = type(pr.impl[0].layer)(rxfn=pr.impl[0]._rxfn, txfn=pr.impl[0]._txfn, address=make_layer_address(old),
+                                                          error_handler=pr.impl[0]._err, params=dict(params), post_send_callback=pr.impl[0]._post_send)
+            pr.impl[0].layer.set_address(make_layer_address(inst))      # ... then re-addressed through the public call
+            payloads = [bytes(rng.getrandbits(8) for _ in range(max(1, L))) for L in (sf_cap - 1, sf_cap, sf_cap + 1, rng.choice([3 * tx_dl, 7 - plen, 8 - plen]))]
+            bad = False
+            for pl in payloads:
+                before = len(pr.wire[0])
+                pr.send(0, hx(pl))
+                for step in range(200):
+                    pr.proc(0)
+                    if not pr.impl[0].layer.transmitting():
+                        break
+                    pr.op(0, 'rx', rid, int(ext), hx(pfx + bytes([0x30, 0, 0])))
+                got = ['%x:%d:%s' % (f[0], f[1], f[2]) for f in pr.wire[0][before:]]
+                exp = ['%s:%s:%s' % (x.split(':')[0], x.split(':')[1], x.split(':')[5]) for x in m.query('seg - ' + hx(pl)).split()]
+                part.d['evaluations'] += 1
+                if got != exp:
+                    part.violation('oracle', campaign, 'C02:frame-differs-from-reference-segmentation',
+                                   'after set_address(%s -> %s), payload of %d bytes: frames %s, reference %s' % (m1, m2, len(pl), got[:3], exp[:3]),
+                                   {'insts': [inst], 'constructed_with': old, 'ops': pr.case['ops']})
+                    bad = True
+                    break
+            pr.close()
+            part.distinct(('readdress', tx_dl, m1, m2))
+            part.hist('class', 'readdress/%s->%s' % ('prefix' if m1.startswith(('Extended', 'Mixed')) else 'noprefix', 'prefix' if plen else 'noprefix'))
+            if bad:
+                continue
+            ml_ = m.run_case(pr.case)
+            part.d['traces_validated'] += 1
+            d = first_diff(pr.lines, ml_)
+            if d is not None:
+                part.violation('correspondence', campaign, 'corr:readdress', 'model (built with the new address) differs at op %d' % d,
+                               {'insts': [inst], 'constructed_with': old, 'ops': pr.case['ops'][:d + 1]},
+                               {'impl_line': pr.lines[d], 'model_line': ml_[d], 'theorem_or_correspondence': THEOREMS})
     return part.result()
 
 
 def run(ctx):
     run_sharded(ctx, 'C02', 'standby')
     run_sharded(ctx, 'C02', 'duplex')
+    run_sharded(ctx, 'C02', 'readdress')
     run_sharded(ctx, 'C02', 'lengths')
     run_sharded(ctx, 'C02', 'huge')
     ctx.exhaustive['payload lengths 1..N for every configuration class'] = True
